@@ -138,6 +138,7 @@ ensures
     forall|i: int| 0 <= i < final(self).states@.len() ==> (#[trigger] final(self).states@[i]).state.0 == i + offset,
     nfa_view(*final(self)) == v_shift(nfa_view(*old(self)), offset as int),
     r.0 == final(self).start_state, r.1 == final(self).end_state,
+    final(self).pattern == old(self).pattern,
 ''',
     edits=[
         Ins('body_start', None, '''
@@ -151,7 +152,7 @@ let ghost v0 = nfa_view(n0);
         invariant
             0 <= __i <= n0.states@.len(), self.states@.len() == n0.states@.len(), bound == n0.states@.len(),
             bound + offset <= u32::MAX, ids_ok(n0), v_wf(nfa_view(n0)),
-            self.start_state == n0.start_state, self.end_state == n0.end_state,
+            self.start_state == n0.start_state, self.end_state == n0.end_state, self.pattern == n0.pattern,
             forall|k: int| 0 <= k < __i ==> (#[trigger] self.states@[k]).state.0 == k + offset && state_view(self.states@[k]) == sv_shift(state_view(n0.states@[k]), offset as int),
             forall|k: int| __i <= k < n0.states@.len() ==> self.states@[k] == n0.states@[k],
         decreases n0.states@.len() - __i
@@ -549,19 +550,21 @@ impl<T> std::ops::IndexMut<StateID> for Vec<T> {
 // derived Default of the id newtype is the zero id (rule E4)
 pub assume_specification[ <StateID as Default>::default ]() -> (r: StateID)
     ensures r.0 == 0;
-// opaque: carried along, never inspected by the combinators
-#[verifier::external_body] pub struct Pattern { _private: () }
 #[verifier::external_body] pub struct ScnrError { _private: () }
 pub type Result<T> = std::result::Result<T, ScnrError>;
-impl Default for Pattern {
-    #[verifier::external_body]
-    fn default() -> (r: Self) { unimplemented!() }
-}
 // TRUSTED: construction of the error value (`unsupported!(format!(..))`) and of the pattern text (`ast.to_string()`)
 #[verifier::external_body] pub fn verif_unsupported() -> ScnrError { unimplemented!() }
 #[verifier::external_body] pub fn verif_ast_to_string(a: &Ast) -> String { unimplemented!() }
 
-''', label='IndexMut<StateID> for Vec<T> (from impl_id!), opaque Pattern / registry'),
+''', label='IndexMut<StateID> for Vec<T> (from impl_id!), opaque error type'),
+        Raw('''
+// opaque: carried along, never inspected by the combinators
+#[verifier::external_body] pub struct Pattern { _private: () }
+impl Default for Pattern {
+    #[verifier::external_body]
+    fn default() -> (r: Self) { unimplemented!() }
+}
+''', label='opaque Pattern'),
         RawFile('../u_ast/ast_types.rs'),
         Struct(F_CAST, 'ComparableAst', derive=[]),
         Raw('''
